@@ -1,4 +1,5 @@
 import Bw.Json
+import Bw.Merge
 import Bw.Glob
 import Bw.Walk
 import Bw.Lemmas.WalkSim
@@ -121,14 +122,24 @@ def handlePipeline (j : Json) : Json :=
     | .ok ctx =>
       let ctxJ := Json.mkObj (ctx.map (fun f => (String.ofList f.path, Json.arr (f.blocks.map blockCtxJson).toArray)))
       let (re, _) := regexOf j
-      let out := run re (asyncOf j) ctx (strList j "enabled") (strList j "disabled")
+      let en := strList j "enabled"
+      let dis := strList j "disabled"
+      let out := run re (asyncOf j) ctx en dis
+      -- the report is computed the way the code computes it: per-validator maps merged per file (`Bw.Merge`); by
+      -- `C11.merged_report_is_run_report` / `merged_exit` it is the report and the exit status of `run`
+      let merged := Merge.runMerged re (asyncOf j) ctx en dis
       let runJ := match out with
-        | .ok ds => Json.mkObj [("diags", Json.arr (ds.map (fun (f, d) => diagJson f d)).toArray)]
+        | .ok _ => Json.mkObj [("diags", Json.arr ((Merge.tagged merged).map (fun (f, d) => diagJson f d)).toArray),
+                               ("files", Json.arr ((Merge.keys merged).map tj).toArray),
+                               ("prints", Merge.printsReport merged)]
         | .err ks => Json.mkObj [("err", Json.arr (ks.map (fun k => Json.str (errKindStr k))).toArray)]
+      let exit := match out with
+        | .ok _ => Merge.exitMerged merged
+        | .err _ => 1
       Json.mkObj [("changes", changesJson changes), ("ctx", Json.mkObj [("files", ctxJ)]),
-        ("detected", Json.arr ((detected ctx (strList j "enabled") (strList j "disabled")).map Json.str).toArray),
+        ("detected", Json.arr ((detected ctx en dis).map Json.str).toArray),
         ("ai_requests", Json.arr ((aiRequests re ctx).map tj).toArray),
-        ("run", runJ), ("exit", exitCode out)]
+        ("run", runJ), ("exit", exit)]
 
 def tagJson (t : Tag.Tag) : Json :=
   match t with
